@@ -10,7 +10,7 @@ from ..astutil import call_attr, calls_in, guard_facts, parent_map, unparse, wal
 from ..cfg import CFG
 from ..dataflow import resolved_text
 from ..report import Finding, Report
-from ..srcindex import AnalysisError, Index, dotted
+from ..srcindex import AnalysisError, Index, dotted, raw_funcs
 from .c15 import CMP_OP, _str_list, impls
 
 AR = "xdsl/dialects/arith.py"
@@ -38,7 +38,7 @@ def check_truncation(idx: Index, rep: Report) -> None:
     sites = []
     for mod, quals in ((AR, None), (CP, None), (CFI, None), (TCF, ("TestConstantFoldingIntegerAdditionPattern.match_and_rewrite",))):
         mi = idx.module(mod)
-        for f in mi.functions.values():
+        for f in raw_funcs(mi):
             if quals is not None and f.qualname not in quals:
                 continue
             if mod == AR and f.name not in ("fold",):
